@@ -123,6 +123,7 @@ fn step(
                 "ratchet-panics",
                 format!("F={} T={} generations {:?}: secret_for_decryption panicked: {p}", cx.f, cx.t, seq),
                 r,
+                seq.len() as u64,
             );
             None
         }
@@ -143,6 +144,7 @@ fn step(
                         cx.f, cx.t, seq, model.head
                     ),
                     r,
+                    seq.len() as u64,
                 );
                 None
             } else if cx.keys.get(g as usize) != Some(&km) {
@@ -154,6 +156,7 @@ fn step(
                         cx.f, cx.t, seq
                     ),
                     r,
+                    seq.len() as u64,
                 );
                 None
             } else {
@@ -182,6 +185,7 @@ fn step(
                         cx.f, cx.t, seq, model.head
                     ),
                     r,
+                    seq.len() as u64,
                 );
                 None
             } else {
@@ -298,14 +302,15 @@ pub fn run(mut rep: Report) -> i32 {
         }
         (task.clone(), cx.acc)
     });
-    let mut extra = vec![];
+    let mut accs = vec![];
     let mut per_window: std::collections::BTreeMap<(&'static str, u32, u32), (u64, u64)> = Default::default();
     for (task, acc) in results {
         let e = per_window.entry((task.part, task.f, task.t)).or_default();
         e.0 += acc.evals;
         e.1 += acc.nontrivial;
-        acc.merge_into(&mut rep, &mut extra);
+        accs.push(acc);
     }
+    crate::par::merge_all(&mut rep, accs);
     for ((part, f, t), (n, nt)) in per_window {
         rep.part(json!({"part": part, "max_forward": f, "ooo_tolerance": t, "sequences": n, "nontrivial": nt}));
     }
